@@ -21,13 +21,14 @@ static std::vector<double> abscissae(int kind, const std::vector<double>& k, uin
 }
 
 // run the library and compare with the reference; returns the fitted coefficients (empty on failure)
-static std::vector<float> fit_and_check(const fitref::Problem& P, bool single_args, const std::string& key, const std::string& where, bool assert_equal = true) {
+static std::vector<float> fit_and_check(const fitref::Problem& P, int single_args /* 0: both per dimension, 1: both given once, 2: smoothing per dimension + one penalty order, 3: one smoothing + penalty order per dimension */, const std::string& key, const std::string& where, bool assert_equal = true) {
   size_t nd = P.ndim();
   photospline::ndsparse data(P.y.size(), nd);
   for (size_t r = 0; r < P.y.size(); r++) { std::vector<unsigned> ix(P.idx[r]); data.insertEntry(P.y[r], ix.data()); }
   for (size_t d = 0; d < nd; d++) data.ranges[d] = P.coords[d].size();
   std::vector<double> sm = P.smooth; std::vector<uint32_t> po = P.porder;
-  if (single_args) { sm.resize(1); po.resize(1); }
+  if (single_args == 1 || single_args == 3) sm.resize(1);
+  if (single_args == 1 || single_args == 2) po.resize(1);
   Table t;
   try { t.fit(data, P.w, P.coords, P.order, P.knots, sm, po, Table::no_monodim, false); }
   catch (std::exception& e) { H->violation("fit-threw:" + key, where + " " + e.what()); return {}; }
@@ -88,7 +89,7 @@ static void run_d1(uint64_t idx) {
   std::string key = vf::fmt("d=1:data=%s", dk == 0 ? "spline" : dk == 1 ? "polynomial" : dk == 2 ? "noisy" : "step");
   std::string where = vf::fmt("[d=1 order=%u porder=%u knots=%s nbasis=%zu abscissae=%d data=%d weights=%d lambda=%g sparse=%d]", order, porder, tg::pattern_name(kp), nb, ak, dk, wk, lam, (int)sparse);
   H->hint(where);
-  std::vector<float> c = fit_and_check(P, true, key, where);
+  std::vector<float> c = fit_and_check(P, 1, key, where);
   if (c.empty()) return;
   fitref::Solution S = fitref::solve(P);
   bool posed = S.spd && S.kappa <= 1e8L;
@@ -107,21 +108,26 @@ static void run_d1(uint64_t idx) {
 
 static void run_dn(uint64_t idx) {
   static const uint32_t O2[6][2] = {{0, 0}, {1, 2}, {2, 2}, {2, 3}, {3, 1}, {4, 2}};
-  static const vf::Radix R{6, 2, 3, 2, 3, 2};
+  static const vf::Radix R{6, 4, 3, 2, 3, 2};
   auto v = R.decode(idx);
-  std::vector<uint32_t> order{O2[v[0]][0], O2[v[0]][1]}; bool single = v[1]; int listing = v[2]; bool sparse = v[3]; static const double LAM[] = {0, 1e-2, 10}; double lam = LAM[v[4]]; int dk = v[5];
+  std::vector<uint32_t> order{O2[v[0]][0], O2[v[0]][1]}; int single = v[1]; int listing = v[2]; bool sparse = v[3]; static const double LAM[] = {0, 1e-2, 10}; double lam = LAM[v[4]]; int dk = v[5];
   fitref::Problem P = grid_problem(order, {tg::K_UNIFORM, tg::K_IRREGULAR}, {order[0] + 3, order[1] + 4}, 1, 2, sparse);
   uint32_t p0 = std::min<uint32_t>(order[0], 2), p1 = std::min<uint32_t>(order[1], 1);
-  if (single) { P.smooth = {lam, lam}; P.porder = {std::min(p0, p1), std::min(p0, p1)}; } else { P.smooth = {lam, lam * 3 + (lam == 0 ? 0.5 : 0)}; P.porder = {p0, p1}; }
+  // the two arguments may each be given once or per dimension, independently of each other
+  double lam1 = lam * 3 + (lam == 0 ? 0.5 : 0); uint32_t pmin = std::min(p0, p1);
+  if (single == 1) { P.smooth = {lam, lam}; P.porder = {pmin, pmin}; }
+  else if (single == 0) { P.smooth = {lam, lam1}; P.porder = {p0, p1}; }
+  else if (single == 2) { P.smooth = {lam, lam1}; P.porder = {pmin, pmin}; }
+  else { P.smooth = {lam, lam}; P.porder = {p0, p1}; }
   std::vector<float> ctrue = tg::make_coeffs(1, P.ncoef(), H->seed, idx);
   // three listing orders of the same sparse data
   if (listing == 1) std::reverse(P.idx.begin(), P.idx.end());
   if (listing == 2) { std::vector<std::vector<unsigned>> a, b; for (size_t i = 0; i < P.idx.size(); i++) (i % 2 ? a : b).push_back(P.idx[i]); a.insert(a.end(), b.begin(), b.end()); P.idx = a; }
   for (size_t r = 0; r < P.idx.size(); r++) { P.y.push_back(dk == 0 ? (double)spline_value(P, ctrue, P.idx[r]) : cos(0.7 * P.idx[r][0]) * (1 + 0.2 * P.idx[r][1]) + vf::u01(H->seed, idx * 977 + P.idx[r][0] * 31 + P.idx[r][1])); P.w.push_back(1.0 + ((P.idx[r][0] + 2 * P.idx[r][1]) % 3)); }
-  std::string where = vf::fmt("[d=2 orders=%u,%u %s-args listing=%d sparse=%d lambda=%g data=%d]", order[0], order[1], single ? "single" : "per-dimension", listing, (int)sparse, lam, dk);
+  std::string where = vf::fmt("[d=2 orders=%u,%u %s-args listing=%d sparse=%d lambda=%g data=%d]", order[0], order[1], (single == 1 ? "single" : single == 0 ? "per-dimension" : single == 2 ? "smoothing-per-dimension+one-penalty-order" : "one-smoothing+penalty-order-per-dimension"), listing, (int)sparse, lam, dk);
   H->hint(where);
   std::vector<float> c = fit_and_check(P, single, "d=2", where);
-  H->cls(vf::fmt("d=2|%u,%u|single=%d|listing=%d|sparse=%d|lam=%g|data=%d", order[0], order[1], (int)single, listing, (int)sparse, lam, dk));
+  H->cls(vf::fmt("d=2|%u,%u|single=%d|listing=%d|sparse=%d|lam=%g|data=%d", order[0], order[1], single, listing, (int)sparse, lam, dk));
 }
 
 static void run_hi(uint64_t idx) {
@@ -137,7 +143,7 @@ static void run_hi(uint64_t idx) {
   for (size_t r = 0; r < P.idx.size(); r++) { P.y.push_back((double)spline_value(P, ctrue, P.idx[r]) + 0.25 * vf::u01(H->seed, idx * 7 + r)); P.w.push_back(0.5 + (r % 4)); }
   std::string where = vf::fmt("[d=%d orders=%s sparse=%d lambda=%g rows=%zu ncoef=%llu]", d, vf::vecstr(order).c_str(), (int)sparse, lam, P.idx.size(), (unsigned long long)P.ncoef());
   H->hint(where);
-  fit_and_check(P, false, vf::fmt("d=%d", d), where);
+  fit_and_check(P, 0, vf::fmt("d=%d", d), where);
   H->cls(where);
 }
 
@@ -150,12 +156,12 @@ static void run_invariance(uint64_t idx) {
   for (size_t r = 0; r < P.idx.size(); r++) { P.y.push_back(sin(0.3 * r) + 0.1 * (r % 5)); P.w.push_back(1.0 + (r % 3)); }
   std::string where = vf::fmt("[invariance d=%d order=%u lambda=%g]", d, order, lam);
   H->hint(where);
-  std::vector<float> base = fit_and_check(P, true, "invariance", where, false);
+  std::vector<float> base = fit_and_check(P, 1, "invariance", where, false);
   fitref::Problem Q = P;   // same data plus zero-weight garbage rows, listed in reverse
   for (size_t r = 0; r < P.idx.size(); r += 3) { Q.idx.push_back(P.idx[r]); Q.y.push_back(1e6 * (r + 1)); Q.w.push_back(0.0); }
   std::vector<size_t> perm(Q.idx.size()); for (size_t i = 0; i < perm.size(); i++) perm[i] = perm.size() - 1 - i;
   fitref::Problem Q2 = Q; for (size_t i = 0; i < perm.size(); i++) { Q2.idx[i] = Q.idx[perm[i]]; Q2.y[i] = Q.y[perm[i]]; Q2.w[i] = Q.w[perm[i]]; }
-  std::vector<float> other = fit_and_check(Q2, true, "invariance", where, false);
+  std::vector<float> other = fit_and_check(Q2, 1, "invariance", where, false);
   if (base.empty() || other.size() != base.size()) return;
   fitref::Solution S = fitref::solve(P); if (!S.spd || S.kappa > 1e8L) return;
   ld cmax = 1; for (auto v : S.c) cmax = std::max(cmax, fabsl(v)); ld tol = 2 * (8 * 1.2e-7L + 200 * S.kappa * 2.3e-16L) * cmax;
@@ -176,7 +182,7 @@ int main(int argc, char** argv) {
   h.meta("deadline_quick", "900"); h.meta("deadline_thorough", "2400");
   h.timeout_s = 120;
   h.add_space("d1", 15ull * 2 * 2 * 3 * 4 * 3 * 5 * 2, run_d1);
-  h.add_space("d2", 6 * 2 * 3 * 2 * 3 * 2, run_dn);
+  h.add_space("d2", 6 * 4 * 3 * 2 * 3 * 2, run_dn);
   h.add_space("d34", 2 * 3 * 2 * 3, run_hi);
   h.add_space("invariance", 12, run_invariance);
   return h.main();
